@@ -403,6 +403,9 @@ def clone(v):
     return bitarray(v) if isinstance(v, bitarray) else v
 
 
+NON_LISTS = [0, False, None, b"", {}, (), 321, "x", 0.0]
+
+
 def build_input(model, types):
     built = {}
 
@@ -691,6 +694,19 @@ def check_case(case, fails):
             fails.append(("unused-list-element-accepted", "serialisation succeeded with an extra element in list %r (%d used)" % (lv.target, len(lv.elems))))
         elif not isinstance(raised, UnusedTargetError):
             fails.append((crash("unused-list-element-wrong-exception", raised), "extra list element: expected UnusedTargetError, got %r" % (raised,)))
+    # ---- (2d) a list target holding something that is not a list (empty-looking values included): never used, never
+    # silently replaced -- serialisation has to fail
+    if model.lists:
+        lv, owner = model.lists[sel["extra"] % len(model.lists)]
+        if lv.target in (built_owner := build_input(model, types))[1][id(owner)]:
+            inp, built = built_owner
+            bogus = NON_LISTS[sel["unused"] % len(NON_LISTS)]
+            built[id(owner)][lv.target] = bogus
+            _, raised, _ = serialise(case, types, inp, defaults)
+            info["non_list_checked"] = info.get("non_list_checked", 0) + 1
+            if raised is None:
+                fails.append(("non-list-under-list-target-accepted", "serialisation succeeded although list target %r (%d elements used) held %r"
+                              % (lv.target, len(lv.elems), bogus)))
     # ---- (3) reuse of a non-list target
     cands = [s for s, node, in_list in model.prims if not in_list]
     if cands:
